@@ -189,7 +189,7 @@ func (e *Exec) buildCex(label string, negated *Term) map[string]any {
 		if (u.S == StrSort || u.S == BytesSort) && isConstructor(u) {
 			ctors = append(ctors, u)
 		}
-		if u.Op == "select" && u.S.K != SUn {
+		if u.Op == "select" && (u.S.K != SUn || u.S == StrSort) {
 			selects = append(selects, u)
 		}
 		if u.S.K == SBV && isHashOp(u.Op) {
@@ -408,14 +408,18 @@ func (e *Exec) writeCex(label string, cex map[string]any) string {
 		return ""
 	}
 	e.W.mu.Lock()
+	// the budget of counterexample files is per assertion label, so that one frequently violated assertion
+	// does not crowd out the others of the same harness
+	cexCount[e.harness+"|"+label]++
+	n := cexCount[e.harness+"|"+label]
 	cexCount[e.harness]++
-	n := cexCount[e.harness]
+	seq := cexCount[e.harness]
 	e.W.mu.Unlock()
 	if n > e.W.maxCex {
 		return ""
 	}
 	os.MkdirAll(cexDir, 0o755)
-	p := filepath.Join(cexDir, fmt.Sprintf("%s-%d.json", e.harness, n))
+	p := filepath.Join(cexDir, fmt.Sprintf("%s-%d.json", e.harness, seq))
 	b, _ := json.MarshalIndent(cex, "", " ")
 	os.WriteFile(p, b, 0o644)
 	return p
